@@ -483,6 +483,12 @@ def run(tier):
     chk.adopt('C13.R6', 'iterating a node yields exactly its children, so '
               'zip(node, rebuilt children) compares each child with its own '
               'copy (shared with C12.R7)', sub12)
+    from .. import freshnodes
+    chk.guard(freshnodes.report, chk, prog, 'C13.R7',
+              'the reader allocates one node object per position: no node '
+              'created before the scanning loop, at module level or by a '
+              'memoised constructor is placed into the parsed input',
+              'the very first input a strategy works on has repeated identities; nothing re-duplicates it before the first round')
     extra = None
     if tier == 'thorough':
         from .. import selftest
